@@ -51,13 +51,47 @@ func c14Case(c *core.Ctx, idx int) {
 		rec.Violation("valid-type-rejected", fmt.Sprintf("[%s] %v\n  type %s", tc.name, err, typeString(tc.typ)), nil)
 		return
 	}
+	// descriptors are asked for by whoever needs the schema: several goroutines at once, through the
+	// one codec the instance shares, must each get the whole descriptor - in a quarter of the cases
+	// before anybody has asked for it, so that the very first descriptions overlap
+	want := tc.cfg.Describe(tc.typ, "")
+	if idx%4 == 1 {
+		const g, reps = 4, 6
+		var wg sync.WaitGroup
+		diffs := make([]string, g)
+		start := make(chan struct{})
+		for w := 0; w < g; w++ {
+			wg.Add(1)
+			go func(w int) {
+				defer wg.Done()
+				<-start
+				for k := 0; k < reps && diffs[w] == ""; k++ {
+					var dw plenccodec.Descriptor
+					if pn := core.Guard(func() { dw = codec.Descriptor() }); pn != "" {
+						diffs[w] = "panic: " + pn
+						return
+					}
+					diffs[w] = model.DescDiff(want, realDesc{&dw}, "$", true)
+				}
+			}(w)
+		}
+		close(start)
+		wg.Wait()
+		rec.Eval(g * reps)
+		rec.Count("concurrent_descriptor_calls", g*reps)
+		for w, diff := range diffs {
+			if diff != "" {
+				rec.Violation("descriptor", fmt.Sprintf("Descriptor() called by %d goroutines at once: goroutine %d got a descriptor that does not mirror the type [%s]: %s\n  type %s", g, w, tc.name, diff, typeString(tc.typ)), map[string]any{"type": typeString(tc.typ)})
+				return
+			}
+		}
+	}
 	var d plenccodec.Descriptor
 	if pn := core.Guard(func() { d = codec.Descriptor() }); pn != "" {
 		rec.Violation("descriptor-panic", fmt.Sprintf("[%s] Descriptor() panicked: %s\n  type %s", tc.name, pn, typeString(tc.typ)), nil)
 		return
 	}
 	rec.Eval(1)
-	want := tc.cfg.Describe(tc.typ, "")
 	if diff := model.DescDiff(want, realDesc{&d}, "$", true); diff != "" {
 		rec.Violation("descriptor", fmt.Sprintf("the Descriptor does not mirror the type definition [%s]: %s\n  type %s", tc.name, diff, typeString(tc.typ)), map[string]any{"type": typeString(tc.typ)})
 		return
@@ -88,39 +122,6 @@ func c14Case(c *core.Ctx, idx int) {
 					return
 				}
 				rec.Count("second_instance_descriptors", 1)
-			}
-		}
-	}
-	// descriptors are asked for by whoever needs the schema: several goroutines at once, through the
-	// one codec the instance shares, must each get the whole descriptor
-	if idx%4 == 1 {
-		const g, reps = 4, 6
-		var wg sync.WaitGroup
-		diffs := make([]string, g)
-		start := make(chan struct{})
-		for w := 0; w < g; w++ {
-			wg.Add(1)
-			go func(w int) {
-				defer wg.Done()
-				<-start
-				for k := 0; k < reps && diffs[w] == ""; k++ {
-					var dw plenccodec.Descriptor
-					if pn := core.Guard(func() { dw = codec.Descriptor() }); pn != "" {
-						diffs[w] = "panic: " + pn
-						return
-					}
-					diffs[w] = model.DescDiff(want, realDesc{&dw}, "$", true)
-				}
-			}(w)
-		}
-		close(start)
-		wg.Wait()
-		rec.Eval(g * reps)
-		rec.Count("concurrent_descriptor_calls", g*reps)
-		for w, diff := range diffs {
-			if diff != "" {
-				rec.Violation("descriptor", fmt.Sprintf("Descriptor() called by %d goroutines at once: goroutine %d got a descriptor that does not mirror the type [%s]: %s\n  type %s", g, w, tc.name, diff, typeString(tc.typ)), map[string]any{"type": typeString(tc.typ)})
-				return
 			}
 		}
 	}
